@@ -390,15 +390,19 @@ def measText (inv it : Nat) (m : Meas) (k : κ) (rid : Nat) : List Char :=
   renderMeas { inv := inv, it := it, value := m.value.text, unit := m.unit.toList, crit := m.crit.toList,
                cols := colsOf k, rid := rid }
 
+/-- the invocation of the open data point as far as run `k` is concerned (`previous_run_id is not run_id`
+starts a new, empty data point) -/
+def openFor (k : κ) (d : Option (κ × Option Nat)) : Option Nat :=
+  match d with
+  | some (k0, oi) => if k0 = k then oi else none
+  | none => none
+
 /-- `_parse_data_line` for one parsed piece -/
 def loadPiece (st : TState κ β) (p : ParsedMeas) : Except LoadErr (TState κ β) :=
   match st.t.idToRun[p.rid]? with
   | none => .error .unknownRunId
   | some k' =>
-    let openInv : Option Nat := match st.dp with
-      | some (k0, oi) => if k0 = k' then oi else none
-      | none => none
-    match openInv with
+    match openFor k' st.dp with
     | some i0 =>
       if i0 ≠ p.inv then .error .mixedDataPoint
       else if p.crit = "total".toList then
@@ -468,6 +472,25 @@ inductive Reach : List (Line κ β) → Prop
   | session (c : List (Line κ β)) (T : Tables κ β) (ls : List (Loaded κ)) (ops : List (κ × DP)) :
       Reach c → load (fun x => x) (fun x => x) c = .ok (T, ls) →
       Reach (writeOps benchOf ops (FP.ofTables c T)).content
+
+/-- a measurement written by `"%f"` whose unit and criterion contain no tab, CR or LF -/
+def MeasOk (m : Meas) : Prop :=
+  (∃ q, m.value = .flt q) ∧ sepFree m.unit.toList = true ∧ sepFree m.crit.toList = true
+
+/-- a data point as every adapter builds it (C12) for a run whose columns are separator-free:
+separator-free strings, exactly one `total`, and that last -/
+structure DPOk (colsOf : κ → List (List Char)) (k : κ) (dp : DP) : Prop where
+  cols : ∀ c ∈ colsOf k, sepFree c = true
+  ms : ∀ m ∈ dp.ms, MeasOk m
+  shape : ∃ init tot, dp.ms = init ++ [tot] ∧ tot.crit = "total" ∧ ∀ m ∈ init, m.crit ≠ "total"
+
+/-- `Reach` restricted to sessions that persist only such data points -/
+inductive ReachOk (colsOf : κ → List (List Char)) : List (Line κ β) → Prop
+  | empty : ReachOk colsOf []
+  | session (c : List (Line κ β)) (T : Tables κ β) (ls : List (Loaded κ)) (ops : List (κ × DP)) :
+      ReachOk colsOf c → load (fun x => x) (fun x => x) c = .ok (T, ls) →
+      (∀ op ∈ ops, DPOk colsOf op.1 op.2) →
+      ReachOk colsOf (writeOps benchOf ops (FP.ofTables c T)).content
 
 end Spec
 
